@@ -86,9 +86,12 @@ func checkCompositeLiteral(
 		return nil
 	}
 
+	// Type aliases (type A = T) denote the same type: look through them
+	t = types.Unalias(t)
 	if ptr, ok := t.(*types.Pointer); ok {
 		t = ptr.Elem()
 	}
+	t = types.Unalias(t)
 
 	named, ok := t.(*types.Named)
 	if !ok {
@@ -147,9 +150,12 @@ func checkNewCall(
 		return nil
 	}
 
+	// Type aliases (type A = T) denote the same type: look through them
+	t = types.Unalias(t)
 	if ptr, ok := t.(*types.Pointer); ok {
 		t = ptr.Elem()
 	}
+	t = types.Unalias(t)
 
 	named, ok := t.(*types.Named)
 	if !ok {
@@ -218,6 +224,9 @@ func checkVarDeclaration(
 			if t == nil {
 				continue
 			}
+
+			// Type aliases (type A = T) denote the same type: look through them
+			t = types.Unalias(t)
 
 			// Skip pointer types - var p *Struct just creates a nil pointer, not an instance
 			if _, ok := t.(*types.Pointer); ok {
